@@ -14,7 +14,7 @@ def deltaEncode (key : Bytes) (last : Bytes) : Bytes :=
 inductive DecRes where
   | ok (key : Bytes)
   | err            -- "uvarint parse failed"
-  | panic          -- slice bounds out of range (shared > len(lastKey))
+  | panic          -- slice bounds out of range (unreachable since the K4 repair added the bounds check)
   deriving DecidableEq, Repr
 
 def deltaDecode (enc : Bytes) (last : Bytes) : DecRes :=
@@ -22,7 +22,7 @@ def deltaDecode (enc : Bytes) (last : Bytes) : DecRes :=
   | none => .err
   | some (shared, rest) =>
     if shared = 0 then .ok rest
-    else if shared > last.length then .panic
+    else if shared > last.length then .err     -- bounds check added by the K4 repair
     else .ok (last.take shared ++ rest)
 
 theorem diffOffset_le_left (a b : Bytes) : diffOffset a b ≤ a.length := by
@@ -61,6 +61,15 @@ theorem delta_roundtrip (key last : Bytes) (hlen : last.length < 2 ^ 64) :
     simp only [show ¬ (diffOffset last key > last.length) by omega, if_false]
     rw [take_diffOffset, List.take_append_drop]
 
-/-- a hostile delta can make the Go code slice out of range (part of K4) -/
-theorem delta_panic_witness : deltaDecode [5, 1] [] = .panic := by decide
+/-- a hostile delta (prefix longer than the previous key) is rejected, not sliced (K4 repair) -/
+theorem delta_hostile_rejected : deltaDecode [5, 1] [] = .err := by decide
+
+/-- the decoder never reaches the out-of-range slice -/
+theorem deltaDecode_never_panics (enc last : Bytes) : deltaDecode enc last ≠ .panic := by
+  unfold deltaDecode
+  split
+  · simp
+  · split
+    · simp
+    · split <;> simp
 end Iavl
